@@ -23,6 +23,10 @@ structure MSt where
   fatalInj  : Bool := false          -- a fatal failure was injected since the last c:start
   fatalSeenStatus : Bool := false    -- first status write after the fatal injection already checked
   srcOpen   : Bool := false
+  xOpen     : List String := []      -- additional sources (k ≥ 2) whose plugin is open
+  openedInCall : List String := []   -- plugins opened since the last c:start ("1" = the primary source)
+  runWriteFailed : Bool := false     -- an UpdateStatus(Running) failed during the user's Start call
+  nestedInCall : Bool := false       -- a recovery's nested Start began during the user's Start call
   lastStatus : String := "user"
   lastRecAt : Option Nat := none     -- time of the last S:rec:ok not yet followed by a nested start
   lastBoAt  : Option Nat := none     -- time of the last "restarting with backoff" log line, likewise
@@ -42,8 +46,17 @@ def posOk (written : List String) (q : Nat) : Bool :=
 def stepM (isV2 : Bool) (minD maxD : Nat) (m : MSt) (t : Tok) : MSt :=
   let (tok, ms) := t
   match tok.splitOn ":" with
-  | ["c", "start"] => { m with userStartPending := true }
+  | ["c", "start"] => { m with userStartPending := true, openedInCall := [], nestedInCall := false, runWriteFailed := false }
+  | ["r", "start", "err"] =>
+    -- C11 "once a run has ended its connectors … are released": a Start that failed must have torn down
+    -- every plugin it opened (v2 runPipeline rollback; in v1 Start returns before the nodes open)
+    let leaked := m.openedInCall.any fun k => if k = "1" then m.srcOpen else m.xOpen.contains k
+    -- (a Start that fails only because its StatusRunning write failed leaves a live run behind: store
+    --  failures are outside this clause)
+    let m := if leaked ∧ !m.nestedInCall ∧ !m.runWriteFailed then flag m "failed-start-leaks-open-plugin" else m
+    { m with userStartPending := false }
   | ["r", "start", _] => { m with userStartPending := false }
+  | ["DOF", _] => { m with injSince := true }
   | ["r", "stop", _, "notrunning"] =>
     let m := { m with forcePending := false }
     if m.srcOpen ∧ m.lastStatus = "run" then flag m "stop-refused-on-running-pipeline" else m
@@ -79,6 +92,7 @@ def stepM (isV2 : Bool) (minD maxD : Nat) (m : MSt) (t : Tok) : MSt :=
                restarts := [], lastRecAt := none, injSince := false }
     else
       -- a recovery restart
+      let m := { m with nestedInCall := true }
       let m := if m.stopped then flag m "restart-after-stop" else m
       let m := if m.fatalInj then flag m "restart-after-fatal" else m
       let m := match m.lastRecAt with
@@ -93,6 +107,7 @@ def stepM (isV2 : Bool) (minD maxD : Nat) (m : MSt) (t : Tok) : MSt :=
       { m with restarts := ms :: m.restarts, lastRecAt := none, lastBoAt := none }
   | ["L", "backoff"] => { m with lastBoAt := some ms }
   | ["S", st, res] =>
+    let m := if st = "run" ∧ res = "fail" then { m with runWriteFailed := true } else m
     let m := if res = "ok" then { m with lastStatus := st } else m
     let m := if st = "rec" ∧ res = "ok" then { m with lastRecAt := some ms } else m
     let m := if m.fatalInj ∧ !m.fatalSeenStatus ∧ st ≠ "run" then
@@ -105,8 +120,21 @@ def stepM (isV2 : Bool) (minD maxD : Nat) (m : MSt) (t : Tok) : MSt :=
     let m := match q.toNat? with
       | some q => if posOk m.written q then m else flag m "restart-skips-unwritten-record"
       | none => m
-    { m with srcOpen := true }
+    { m with srcOpen := true, openedInCall := "1" :: m.openedInCall }
   | ["T"] => { m with srcOpen := false }
+  | [t] =>
+    -- O<k> / T<k>: the plugin of additional source k opened / was torn down; OF<k>: its Open failed
+    let k := (t.drop 1).toString
+    if t.length ≥ 2 ∧ k.all Char.isDigit then
+      if t.startsWith "O" then
+        let m := if m.xOpen.contains k then flag m "plugin-opened-twice" else m
+        { m with xOpen := k :: m.xOpen, openedInCall := k :: m.openedInCall }
+      else if t.startsWith "T" then
+        let m := if m.xOpen.contains k then m else flag m "plugin-torn-down-twice"
+        { m with xOpen := m.xOpen.erase k }
+      else m
+    else if t.startsWith "OF" then { m with injSince := true }
+    else m
   | ["W", p] => { m with written := p :: m.written }
   | ["A", p] => if m.written.contains p then m else flag m "ack-without-write"
   | ["STALL", k] => { m with stall := k.toNat?.getD 0 }
@@ -115,6 +143,7 @@ def stepM (isV2 : Bool) (minD maxD : Nat) (m : MSt) (t : Tok) : MSt :=
     let m := if 150 + 3 * m.stall < m.longest then flag m "backoff-too-long" else m
     let m := if op = "1" ∧ st ≠ "run" then flag m "live-run-but-status-not-running" else m
     let m := if op = "0" ∧ st = "run" then flag m "status-running-but-no-run" else m
+    let m := if st ≠ "run" ∧ st ≠ "rec" ∧ !m.xOpen.isEmpty then flag m "plugin-leaked-after-run-ended" else m
     let m := if m.forced ∧ !m.forcedDeg then flag m "force-stop-not-degraded" else m
     let m := if m.userStop ∧ st ≠ "user" ∧ !(m.sawStopAll ∧ st = "sys") then flag m "user-stop-wrong-final-status" else m
     let m := if m.sysStop ∧ st ≠ "sys" then flag m "shutdown-wrong-final-status" else m
